@@ -561,6 +561,10 @@ func (sp *Specs) loadSpecFile(path, pkg string) error {
 				// at fieldstore T.f assert[*] label: expr  -- every store to field f of a T
 				field, n, err = ns, 0, nil
 			}
+			if err != nil && (kind == "lookup" || kind == "mapupdate") && strings.Contains(ns, ".") {
+				// at lookup T.f assert[*] label: expr  -- every lookup / update of the map held in field f of a T
+				field, n, err = ns, 0, nil
+			}
 			if err != nil {
 				return fail(l, "at: ordinal or * expected")
 			}
